@@ -5,6 +5,8 @@
 
 $grp = comdat any
 $solo = comdat largest
+$own_name = comdat any
+$tables = comdat largest
 
 @counter = global i32 0, comdat($grp), !info !1
 @table = global [2 x i32*] [i32* @counter, i32* getelementptr (%pair, %pair* @apair, i32 0, i32 0)]
@@ -20,6 +22,15 @@ $solo = comdat largest
 declare i32 @__personality(...)
 declare void @llvm.dbg.value(metadata, metadata, metadata)
 declare void @may_throw() #0
+; a function in a comdat that is NOT the one named like the function (which exists too)
+define void @own_name() comdat($tables) {
+  ret void
+}
+; a declaration that carries a metadata attachment and whose header refers to a
+; global (prefix data) and to a named type (byval)
+declare !info !1 void @decl_with_attachment(%pair* byval(%pair) %p) prefix i32* @counter
+; a declaration with named parameters (their names must still be unique)
+declare i32 @named_params(i32 %left, i32 %right, i8* %buf)
 
 define void (%pair*)* @pick() {
   ret void (%pair*)* @use_pair
